@@ -79,10 +79,9 @@ theorem applyCmd_some {c : Config} {s : NodeState} {now : Nat} {e : Entry} {s' :
       obtain ⟨rfl, rfl, _⟩ := h
       simp [idsOf, resOf]
   | membership a n =>
-    have hk := changeCluster_keeps s now a n
     simp only [applyCmd, Option.some.injEq, Prod.mk.injEq] at h
     obtain ⟨rfl, rfl, _⟩ := h
-    simp [idsOf, resOf, hk.1, hk.2.1, hk.2.2]
+    simp [idsOf, resOf]
 
 /-! ## progress and state-machine content -/
 
@@ -277,7 +276,7 @@ theorem applyCmd_no_isCallback {c : Config} {s : NodeState} {now : Nat} {e : Ent
   · split at h
     · cases h
     · cases h; rfl
-  · cases h; exact changeCluster_no_isCallback s now _ _
+  · cases h; rfl
   · cases h; rfl
 
 theorem applicable_subset (c : Config) (es : List Entry) : ∀ e ∈ applicable c es, e ∈ es := by
